@@ -1,5 +1,7 @@
 import FimVerif.Proofs.Lemmas.TopoAtomic
-import FimVerif.Proofs.Lemmas.TopoInvNamesOps
+import FimVerif.Proofs.Lemmas.TopoInvExt
+import FimVerif.Model.TopoView
+import FimVerif.Model.TopoExt
 /-!
 # C07 — models built through the topology API satisfy the published rules; views are exact
 
@@ -80,6 +82,74 @@ theorem views_partition_nodes (s : Topo) :
   | cons a l ih =>
     simp only [List.filter_cons]
     by_cases h1 : a.cls = .networkNode <;> by_cases h2 : a.typ = "Facility" <;> simp [h1, h2] <;> omega
+
+/-! ## the views are read-only (`Model/TopoView.lean` over the table generated from fim/view_only_dict.py) -/
+
+section Views
+open FimVerif.TopoView
+
+/-- the generated table says: no in-place method of `dict` is accepted, none changes the view or the wrapped dictionary, the class
+does not forward attributes and is not a (subclass of a) mutable mapping -/
+def allRefused : Bool :=
+  ViewDict.mutators.all (fun r => r.2.2.1 != "ok" && !r.2.2.2.1 && !r.2.2.2.2) && !ViewDict.forwardsAttributes &&
+    !ViewDict.isMutableMapping && !ViewDict.isDict
+
+theorem view_mutators_refused : allRefused = true := by decide
+
+/-- the table covers every way a dict can be changed in place, as a method and as a statement -/
+theorem view_mutators_complete :
+    ["__setitem__", "item-assignment", "__delitem__", "del-item", "pop", "popitem", "clear", "update", "setdefault", "__ior__", "|="].all
+      (fun m => ViewDict.mutators.any (fun r => r.1 == m)) = true := by decide
+
+/-- every `interface_list` is a tuple, or a list whose change does not show in the next read -/
+theorem view_lists_immutable : ViewDict.listViews.all (fun r => r.2.1 == "tuple" || r.2.2) = true := by decide
+
+theorem verdict_not_ok {name out : String} (h : verdict name = some out) : (out == "ok") = false := by
+  unfold verdict at h
+  cases hf : ViewDict.mutators.find? (fun r => r.1 == name) with
+  | none => rw [hf] at h; cases h
+  | some r =>
+    rw [hf] at h
+    simp only [Option.map_some, Option.some.injEq] at h
+    have hm := List.mem_of_find?_eq_some hf
+    have hall := view_mutators_refused
+    simp only [allRefused, Bool.and_eq_true, List.all_eq_true] at hall
+    have := hall.1.1.1 r hm
+    simp only [bne_iff_ne, ne_eq] at this
+    rw [← h]
+    simpa using this.1.1
+
+/-- every operation on a view - reading or any in-place method of `dict` - leaves the view object and the model as they were -/
+theorem view_call_readOnly (c : Call) : ReadOnly (TopoView.call c) := by
+  cases c with
+  | len => exact readOnly_read _
+  | keys => exact readOnly_read _
+  | contains k => exact readOnly_read _
+  | get k => exact readOnly_read _
+  | getitem k => constructor; intro v; simp only [TopoView.call]; split <;> rfl
+  | mutator name k =>
+    simp only [TopoView.call]
+    cases hv : verdict name with
+    | none => exact readOnly_raise _
+    | some out =>
+      simp only [verdict_not_ok hv]
+      exact readOnly_raise _
+
+theorem views_cannot_modify (cs : List Call) : ∀ v : VState, TopoView.runCalls cs v = v := by
+  induction cs with
+  | nil => intro v; rfl
+  | cons c cs ih => intro v; simp only [TopoView.runCalls]; rw [(view_call_readOnly c).h v]; exact ih v
+
+/-- a view lists exactly the elements of its class, and still does after any sequence of calls on it -/
+theorem view_stays_exact (k : Kind) (s : Topo) (cs : List Call) (x : String) :
+    x ∈ (TopoView.runCalls cs (openView k s)).keys ↔ x ∈ listing k s := by
+  rw [views_cannot_modify]
+  simp [openView, dictKeys]
+
+example : failed (TopoView.call (.mutator "pop" "n1") (openView .nodes ⟨[⟨.networkNode, .user "a", "n1", "VM", []⟩], []⟩)) ∧
+    (openView .nodes ⟨[⟨.networkNode, .user "a", "n1", "VM", []⟩], []⟩).keys = ["n1"] := by decide
+
+end Views
 
 /-! ## the well-formedness invariant -/
 
@@ -258,15 +328,15 @@ instance (s : Topo) (c : Nat) (svc : Nid) (i : IfArg) : Decidable (ConnectOk s c
 /-- the calls (with the decidable conditions on their arguments in state `s`) for which `inv_op` is proved -/
 def CoveredS (s : Topo) : TopoOp → Prop
   | .addNode _ _ a => TypeArgOk .networkNode a.ntype
-  | .addComponent _ _ parent _ => HandleOk s parent .networkNode
-  | .addStorage _ _ parent _ _ _ => HandleOk s parent .networkNode
-  | .addService fl c a => SvcGuards s c none a ∧ ReturnsOrUnchanged (addService fl c a) s
-  | .nodeAddService fl c parent a => SvcGuards s c (some parent) a ∧ ReturnsOrUnchanged (nodeAddService fl c parent a) s
+  | .addComponent _ _ _ _ => True
+  | .addStorage _ _ _ _ _ _ => True
+  | .addService _ c a => SvcGuards s c none a
+  | .nodeAddService _ c parent a => SvcGuards s c (some parent) a
   | .nsAddInterface _ _ svc _ _ _ itype _ => HandleOk s svc .networkService ∧ TypeArgOk .connectionPoint itype ∧ NotSp itype
   | .addLink _ _ _ _ ltype ifs _ _ => TypeArgOk .link ltype ∧ NoSpOpt s ifs
   | .connect _ c svc _ i => ConnectOk s c svc i
-  | .addFacility fl c n i st t np ifs kw => TypeArgOk .networkService t ∧ ReturnsOrUnchanged (addFacility fl c n i st t np ifs kw) s
-  | .addSwitch fl c n i st t np ports => TypeArgOk .networkService t ∧ ReturnsOrUnchanged (addSwitch fl c n i st t np ports) s
+  | .addFacility _ _ _ _ _ t _ _ _ => TypeArgOk .networkService t
+  | .addSwitch _ _ _ _ _ t _ _ => TypeArgOk .networkService t
   | .setProps _ _ => True
   | .unsetProp _ _ => True
   | .rename _ _ _ => True
@@ -275,8 +345,8 @@ def CoveredS (s : Topo) : TopoOp → Prop
 /-- the alphabet for the downward-closed invariant: every removing call as well, and add_network_service whatever its outcome -/
 def CoveredD (s : Topo) : TopoOp → Prop
   | .addNode _ _ a => TypeArgOk .networkNode a.ntype
-  | .addComponent _ _ parent _ => HandleOk s parent .networkNode
-  | .addStorage _ _ parent _ _ _ => HandleOk s parent .networkNode
+  | .addComponent _ _ _ _ => True
+  | .addStorage _ _ _ _ _ _ => True
   | .addService _ c a => SvcGuards s c none a
   | .nodeAddService _ c parent a => SvcGuards s c (some parent) a
   | .nsAddInterface _ _ svc _ _ _ itype _ => HandleOk s svc .networkService ∧ TypeArgOk .connectionPoint itype
@@ -321,10 +391,10 @@ theorem state_bind_pure {α β : Type} (m : M Topo α) (g : α → M Topo β) (h
 theorem inv_op (s : Topo) (op : TopoOp) (hc : CoveredS s op) (h : InvS s) : InvS (step op s).2 := by
   cases op <;> simp only [CoveredS] at hc <;> simp only [step] <;> rw [state_bind_pure _ _ (fun _ _ => rfl)]
   case addNode fl c a => exact invS_addNode fl c a s hc h
-  case addComponent fl c p a => exact invS_addComponent fl c p a s hc h
-  case addStorage fl c p n i pr => exact invS_addStorage fl c p n i pr s hc h
-  case addService fl c a => exact invS_addService fl c a s hc.1 hc.2 h
-  case nodeAddService fl c p a => exact invS_nodeAddService fl c p a s hc.1 hc.2 h
+  case addComponent fl c p a => exact inv_addComponent_anyHandle attachStable_invS fl c p a s h
+  case addStorage fl c p n i pr => exact inv_addStorage_anyHandle attachStable_invS fl c p n i pr s h
+  case addService fl c a => exact invS_addService fl c a s hc (addService_rou fl c a s h.ids h.closed hc) h
+  case nodeAddService fl c p a => exact invS_nodeAddService fl c p a s hc (nodeAddService_rou fl c p a s h.ids h.closed hc) h
   case nsAddInterface fl c svc ca n i t p => exact invS_nsAddInterface fl c svc ca n i t p s hc.1 hc.2.1 hc.2.2 h
   case addLink fl c n i lt ifs t p =>
     exact invS_addLink fl c n i lt ifs t p s hc.1 (fun l hl => by have := hc.2; rw [hl] at this; exact this) h
@@ -332,8 +402,10 @@ theorem inv_op (s : Topo) (op : TopoOp) (hc : CoveredS s op) (h : InvS s) : InvS
     cases i with
     | bogus => exact h
     | iface iid iname => exact invS_connect fl c svc iid iname ca s hc.1 hc.2.1 hc.2.2.1 hc.2.2.2 h
-  case addFacility fl c n i st t np ifs kw => exact invS_addFacility fl c n i st t np ifs kw s hc.1 hc.2 h
-  case addSwitch fl c n i st t np ports => exact invS_addSwitch fl c n i st t np ports s hc.1 hc.2 h
+  case addFacility fl c n i st t np ifs kw =>
+    exact invS_addFacility fl c n i st t np ifs kw s hc (addFacility_rou fl c n i st t np ifs kw s h.ids h.closed) h
+  case addSwitch fl c n i st t np ports =>
+    exact invS_addSwitch fl c n i st t np ports s hc (addSwitch_rou fl c n i st t np ports s h.ids h.closed) h
   case setProps i p => exact (preserves_setProps keyStable_invS.map i p).h s h
   case unsetProp i g => exact (preserves_unsetProp keyStable_invS.map i g).h s h
   case rename c i n => exact (preserves_rename keyStable_invS c i n).h s h
@@ -341,8 +413,8 @@ theorem inv_op (s : Topo) (op : TopoOp) (hc : CoveredS s op) (h : InvS s) : InvS
 theorem invD_op (s : Topo) (op : TopoOp) (hc : CoveredD s op) (h : InvD s) : InvD (step op s).2 := by
   cases op <;> simp only [CoveredD] at hc <;> simp only [step] <;> rw [state_bind_pure _ _ (fun _ _ => rfl)]
   case addNode fl c a => exact invD_addNode fl c a s hc h
-  case addComponent fl c p a => exact invD_addComponent fl c p a s hc h
-  case addStorage fl c p n i pr => exact invD_addStorage fl c p n i pr s hc h
+  case addComponent fl c p a => exact inv_addComponent_anyHandle attachStable_invD fl c p a s h
+  case addStorage fl c p n i pr => exact inv_addStorage_anyHandle attachStable_invD fl c p n i pr s h
   case addService fl c a => exact invD_addService fl c a s hc h
   case nodeAddService fl c p a => exact invD_nodeAddService fl c p a s hc h
   case nsAddInterface fl c svc ca n i t p => exact invD_nsAddInterface fl c svc ca n i t p s hc.1 hc.2 h
@@ -406,10 +478,10 @@ instance decValidN : (ops : List TopoOp) → (s : Topo) → Decidable (ValidN op
 theorem invN_op (s : Topo) (op : TopoOp) (hc : CoveredN s op) (h : InvSN s) : InvSN (step op s).2 := by
   cases op <;> simp only [CoveredN, CoveredS] at hc <;> simp only [step] <;> rw [state_bind_pure _ _ (fun _ _ => rfl)]
   case addNode fl c a => exact invSN_addNode fl c a s hc h
-  case addComponent fl c p a => exact invSN_addComponent fl c p a s hc h
-  case addStorage fl c p n i pr => exact invSN_addStorage fl c p n i pr s hc h
-  case addService fl c a => exact invSN_addService fl c a s hc.1 hc.2 h
-  case nodeAddService fl c p a => exact invSN_nodeAddService fl c p a s hc.1 hc.2 h
+  case addComponent fl c p a => exact inv_addComponent_anyHandle attachStable_invSN fl c p a s h
+  case addStorage fl c p n i pr => exact inv_addStorage_anyHandle attachStable_invSN fl c p n i pr s h
+  case addService fl c a => exact invSN_addService fl c a s hc (addService_rou fl c a s h.1.ids h.1.closed hc) h
+  case nodeAddService fl c p a => exact invSN_nodeAddService fl c p a s hc (nodeAddService_rou fl c p a s h.1.ids h.1.closed hc) h
   case nsAddInterface fl c svc ca n i t p => exact invSN_nsAddInterface fl c svc ca n i t p s hc.1 hc.2.1 hc.2.2 h
   case addLink fl c n i lt ifs t p =>
     exact invSN_addLink fl c n i lt ifs t p s hc.1 (fun l hl => by have := hc.2; rw [hl] at this; exact this) h
@@ -417,8 +489,10 @@ theorem invN_op (s : Topo) (op : TopoOp) (hc : CoveredN s op) (h : InvSN s) : In
     cases i with
     | bogus => exact h
     | iface iid iname => exact invSN_connect fl c svc iid iname ca s hc.1 hc.2.1 hc.2.2.1 hc.2.2.2 h
-  case addFacility fl c n i st t np ifs kw => exact invSN_addFacility fl c n i st t np ifs kw s hc.1 hc.2 h
-  case addSwitch fl c n i st t np ports => exact invSN_addSwitch fl c n i st t np ports s hc.1 hc.2 h
+  case addFacility fl c n i st t np ifs kw =>
+    exact invSN_addFacility fl c n i st t np ifs kw s hc (addFacility_rou fl c n i st t np ifs kw s h.1.ids h.1.closed) h
+  case addSwitch fl c n i st t np ports =>
+    exact invSN_addSwitch fl c n i st t np ports s hc (addSwitch_rou fl c n i st t np ports s h.1.ids h.1.closed) h
   case setProps i p => exact (preserves_setProps mapStable_invSN i p).h s h
   case unsetProp i g => exact (preserves_unsetProp mapStable_invSN i g).h s h
 
@@ -439,6 +513,157 @@ example : ValidN [.addNode .experiment 0 ⟨"n1", none, some "RENC", some "VM", 
                   .connect .experiment 8 (.gen 5) [] (.iface (.gen 3) "nic1-p2"),
                   .addFacility .experiment 10 "fac" none (some "RENC") (some "VLAN") [] none [],
                   .setProps (.gen 0) [.ok "Site" "UKY"]] Topo.empty := by decide
+
+
+/-! ## the second alphabet (`XOp`) and histories over both alphabets
+
+`add_child_interface`, `remove_child_interface`, `peer`, `unpeer`, `add_port_mirror_service`, `add_component(model_type=…)`, `prune`.
+`InvD` is kept by all of them, `InvS` / `InvSN` by the creating ones.  The guards: the port handle refers to an interface (when to
+anything); `peer`'s two handles refer to services and the other handle's id is not the uuid about to be drawn (C09 `PeerOk`); the
+port-mirror service's arguments satisfy `SvcGuards` (as for `add_network_service`). -/
+
+def CoveredDX (s : Topo) : XOp → Prop
+  | .addChildInterface _ _ port _ _ _ _ _ _ => HandleOk s port .connectionPoint
+  | .peer _ c svc _ _ other _ => PeerGuard s c svc other
+  | .addPortMirror _ c a _ _ => SvcGuards s c none a
+  | .removeChildInterface _ _ _ | .unpeer _ _ | .addComponentMT _ _ _ _ _ | .prune _ _ _ _ => True
+
+def CoveredSX (s : Topo) : XOp → Prop
+  | .addChildInterface _ _ port _ _ _ _ _ _ => HandleOk s port .connectionPoint
+  | .peer _ c svc _ _ other _ => PeerGuard s c svc other
+  | .addPortMirror _ c a _ _ => SvcGuards s c none a
+  | .addComponentMT _ _ _ _ _ => True
+  | .removeChildInterface _ _ _ | .unpeer _ _ | .prune _ _ _ _ => False
+
+instance (s : Topo) (op : XOp) : Decidable (CoveredDX s op) := by cases op <;> unfold CoveredDX <;> infer_instance
+instance (s : Topo) (op : XOp) : Decidable (CoveredSX s op) := by cases op <;> unfold CoveredSX <;> infer_instance
+
+theorem invD_xop (s : Topo) (op : XOp) (hc : CoveredDX s op) (h : InvD s) : InvD (stepX op s).2 := by
+  cases op <;> simp only [CoveredDX] at hc <;> simp only [stepX] <;> rw [state_bind_pure _ _ (fun _ _ => rfl)]
+  case addChildInterface fl c p ca n i v tb pr => exact inv_addChildInterface attachStable_invD fl c p ca n i v tb pr s hc h
+  case removeChildInterface p ca n => exact (preserves_removeChildInterface dropStable_invD p ca n).h s h
+  case peer fl c svc sn ca o pr => exact invD_peer fl c svc sn ca o pr s hc h
+  case unpeer ca o => exact (preserves_unpeer dropStable_invD ca o).h s h
+  case addPortMirror fl c a t f => exact invD_addPortMirror fl c a t f s hc h
+  case addComponentMT fl c p a mt => exact inv_addComponentMT attachStable_invD fl c p a mt s h
+  case prune ns cs ss is => exact (preserves_prune dropStable_invD ns cs ss is).h s h
+
+theorem inv_xop (s : Topo) (op : XOp) (hc : CoveredSX s op) (h : InvS s) : InvS (stepX op s).2 := by
+  cases op <;> simp only [CoveredSX] at hc <;> simp only [stepX] <;> rw [state_bind_pure _ _ (fun _ _ => rfl)]
+  case addChildInterface fl c p ca n i v tb pr => exact inv_addChildInterface attachStable_invS fl c p ca n i v tb pr s hc h
+  case peer fl c svc sn ca o pr => exact invS_peer fl c svc sn ca o pr s hc h
+  case addPortMirror fl c a t f => exact invS_addPortMirror fl c a t f s hc h
+  case addComponentMT fl c p a mt => exact inv_addComponentMT attachStable_invS fl c p a mt s h
+
+theorem invN_xop (s : Topo) (op : XOp) (hc : CoveredSX s op) (h : InvSN s) : InvSN (stepX op s).2 := by
+  cases op <;> simp only [CoveredSX] at hc <;> simp only [stepX] <;> rw [state_bind_pure _ _ (fun _ _ => rfl)]
+  case addChildInterface fl c p ca n i v tb pr => exact inv_addChildInterface attachStable_invSN fl c p ca n i v tb pr s hc h
+  case peer fl c svc sn ca o pr => exact invSN_peer fl c svc sn ca o pr s hc h
+  case addPortMirror fl c a t f => exact invSN_addPortMirror fl c a t f s hc h
+  case addComponentMT fl c p a mt => exact inv_addComponentMT attachStable_invSN fl c p a mt s h
+
+/-- a building call of either alphabet -/
+inductive Call where
+  | t (op : TopoOp)
+  | x (op : XOp)
+
+def stepCall : Call → Topo → Topo
+  | .t op, s => (step op s).2
+  | .x op, s => (stepX op s).2
+
+def runCalls : List Call → Topo → Topo
+  | [], s => s
+  | c :: cs, s => runCalls cs (stepCall c s)
+
+def CallD (s : Topo) : Call → Prop
+  | .t op => CoveredD s op
+  | .x op => CoveredDX s op
+def CallS (s : Topo) : Call → Prop
+  | .t op => CoveredS s op
+  | .x op => CoveredSX s op
+def CallN (s : Topo) : Call → Prop
+  | .t op => CoveredN s op
+  | .x op => CoveredSX s op
+instance (s : Topo) (c : Call) : Decidable (CallD s c) := by cases c <;> unfold CallD <;> infer_instance
+instance (s : Topo) (c : Call) : Decidable (CallS s c) := by cases c <;> unfold CallS <;> infer_instance
+instance (s : Topo) (c : Call) : Decidable (CallN s c) := by cases c <;> unfold CallN <;> infer_instance
+
+/-- every call of the history satisfies the guard `G` in the state it is made in -/
+def ValidCalls (G : Topo → Call → Prop) : List Call → Topo → Prop
+  | [], _ => True
+  | c :: cs, s => G s c ∧ ValidCalls G cs (stepCall c s)
+instance decValidCalls (G : Topo → Call → Prop) [∀ s c, Decidable (G s c)] : (cs : List Call) → (s : Topo) → Decidable (ValidCalls G cs s)
+  | [], _ => isTrue trivial
+  | c :: cs, s => by
+      unfold ValidCalls
+      have := decValidCalls G cs (stepCall c s)
+      infer_instance
+
+theorem history_of_step {P : Topo → Prop} {G : Topo → Call → Prop} (hstep : ∀ s c, G s c → P s → P (stepCall c s)) (cs : List Call) :
+    ∀ s, ValidCalls G cs s → P s → P (runCalls cs s) := by
+  induction cs with
+  | nil => intro s _ h; exact h
+  | cons c cs ih => intro s hv h; exact ih _ hv.2 (hstep s c hv.1 h)
+
+theorem invD_call (s : Topo) (c : Call) (hc : CallD s c) (h : InvD s) : InvD (stepCall c s) := by
+  cases c with
+  | t op => exact invD_op s op hc h
+  | x op => exact invD_xop s op hc h
+theorem inv_call (s : Topo) (c : Call) (hc : CallS s c) (h : InvS s) : InvS (stepCall c s) := by
+  cases c with
+  | t op => exact inv_op s op hc h
+  | x op => exact inv_xop s op hc h
+theorem invN_call (s : Topo) (c : Call) (hc : CallN s c) (h : InvSN s) : InvSN (stepCall c s) := by
+  cases c with
+  | t op => exact invN_op s op hc h
+  | x op => exact invN_xop s op hc h
+
+/-- PARTIAL ("at most one" owner / parent / peer instead of "exactly one"; the name scopes are missing): EVERY building call of
+both alphabets - all 30 request kinds, removing calls, rollbacks and half-way raises included - keeps `InvD`, along every history -/
+theorem invD_calls_partial (cs : List Call) (s : Topo) (hv : ValidCalls CallD cs s) (h : InvD s) : InvD (runCalls cs s) :=
+  history_of_step invD_call cs s hv h
+
+/-- PARTIAL (the removing calls and the name scopes are missing): every creating / property call of both alphabets keeps `InvS`
+("exactly one" owner / parent / peer), with no side condition on the outcome of the call -/
+theorem inv_calls_partial (cs : List Call) (s : Topo) (hv : ValidCalls CallS cs s) (h : InvS s) : InvS (runCalls cs s) :=
+  history_of_step inv_call cs s hv h
+
+/-- PARTIAL (as `inv_calls_partial`, without rename; Link and interface-of-a-service name scopes missing): … and the four name
+scopes of `NamesCore` -/
+theorem invN_calls_partial (cs : List Call) (s : Topo) (hv : ValidCalls CallN cs s) (h : InvSN s) : InvSN (runCalls cs s) :=
+  history_of_step invN_call cs s hv h
+
+theorem invD_calls_from_empty (cs : List Call) (hv : ValidCalls CallD cs Topo.empty) : InvD (runCalls cs Topo.empty) :=
+  invD_calls_partial cs _ hv inv_empty.struct.down
+
+/-- non-vacuity: a node with a SmartNIC, a sub-interface on one of its dedicated ports, a second node, two services peered,
+the sub-interface connected - then the component is removed with everything under it, the peering undone, a node pruned -/
+example : ValidCalls CallD [
+    .t (.addNode .experiment 0 ⟨"n1", none, some "RENC", some "VM", []⟩),
+    .x (.addComponentMT .experiment 1 (.gen 0) ⟨"nic1", none, some "SmartNIC", none, none, none, none, []⟩ ("ConnectX-6", "SmartNIC")),
+    .x (.addChildInterface .experiment 5 (.gen 2) [] "sub1" none (some "101") [] [.ok "Labels" "{\"vlan\": \"101\"}"]),
+    .t (.addService .experiment 6 ⟨"s1", none, some "L2Bridge", none, none, [], [.iface (.gen 5) "sub1"]⟩),
+    .t (.addService .experiment 9 ⟨"s2", none, some "L2STS", none, none, [], []⟩),
+    .x (.peer .experiment 10 (.gen 6) "s1" [] (some ⟨.gen 9, "s2", []⟩) []),
+    .t (.removeComponent (.gen 0) "nic1"),
+    .x (.unpeer [("s1-s2", .gen 10)] (some ⟨.gen 9, "s2", [("s2-s1", .gen 11)]⟩)),
+    .x (.prune ["n1"] [] [] [])] Topo.empty ∧
+  (runCalls [
+    .t (.addNode .experiment 0 ⟨"n1", none, some "RENC", some "VM", []⟩),
+    .x (.addComponentMT .experiment 1 (.gen 0) ⟨"nic1", none, some "SmartNIC", none, none, none, none, []⟩ ("ConnectX-6", "SmartNIC")),
+    .x (.addChildInterface .experiment 5 (.gen 2) [] "sub1" none (some "101") [] [.ok "Labels" "{\"vlan\": \"101\"}"]),
+    .t (.addService .experiment 6 ⟨"s1", none, some "L2Bridge", none, none, [], [.iface (.gen 5) "sub1"]⟩),
+    .t (.addService .experiment 9 ⟨"s2", none, some "L2STS", none, none, [], []⟩),
+    .x (.peer .experiment 10 (.gen 6) "s1" [] (some ⟨.gen 9, "s2", []⟩) [])] Topo.empty).nodes.length = 13 := by decide
+
+example : ValidCalls CallN [
+    .t (.addNode .experiment 0 ⟨"n1", none, some "RENC", some "VM", []⟩),
+    .x (.addComponentMT .experiment 1 (.gen 0) ⟨"nic1", none, some "SmartNIC", none, none, none, none, []⟩ ("ConnectX-6", "SmartNIC")),
+    .x (.addChildInterface .experiment 5 (.gen 2) [] "sub1" none (some "101") [] [.ok "Labels" "{\"vlan\": \"101\"}"]),
+    .t (.addService .experiment 6 ⟨"s1", none, some "L2Bridge", none, none, [], [.iface (.gen 5) "sub1"]⟩),
+    .t (.addService .experiment 9 ⟨"s2", none, some "L2STS", none, none, [], []⟩),
+    .x (.peer .experiment 10 (.gen 6) "s1" [] (some ⟨.gen 9, "s2", []⟩) []),
+    .x (.addPortMirror .experiment 13 ⟨"pm", none, some "PortMirror", none, none, [], [.iface (.gen 3) "nic1-p2"]⟩ true true)] Topo.empty := by decide
 
 /-! ### the full invariant, name scopes included, for the calls that cannot touch a name -/
 
@@ -530,5 +755,21 @@ set_option maxRecDepth 8000 in
 theorem connect_names_counterexample : Inv w4 ∧ Inv w5 ∧
     ¬ LinkNames (connectInterface .experiment 2 (.user "s") [] (.iface (.user "f2") "ii") w5).2 ∧
     ¬ CpNames (connectInterface .experiment 2 (.user "s") [] (.iface (.user "f2") "ii") w5).2 := by decide
+
+/-- known finding `C07:names-unique:NetworkNode:set_props`: the generic property setter writes `Name` without a uniqueness guard
+(full statement `Inv s → Inv (setPropsNT … s).2` fails) -/
+theorem setName_names_counterexample : Inv w0 ∧ ¬ NodeNames (setPropsNT (.user "b") [.ok "Name" "n1"] w0).2 := by decide
+
+/-- known finding `C07:serviceport-one-peer:…:set_props`: … and `Type` without a look at the element's links: a port retyped
+to ServicePort has no peer -/
+theorem setType_sp_counterexample : Inv w1 ∧ ¬ SpPeer (setPropsNT (.user "i1") [.ok "Type" "ServicePort"] w1).2 := by decide
+
+/-- keywords other than `name` / `type` (what `Topo.setProps` models, and what `inv_setProps` is about) do what `setProps` does -/
+theorem setPropsNT_eq_setProps (nid : Nid) (k v : String) (hk : k ≠ "Name") (ht : k ≠ "Type") (s : Topo) :
+    (setPropsNT nid [.ok k v] s).2 = (setProps nid [.ok k v] s).2 := by
+  simp only [setPropsNT, setProps, updateProps, validateProps, ofExcept_apply, bind_apply', modify_apply]
+  rcases cases_run (findNode nid) s with ⟨n, s', h⟩ | ⟨e, s', h⟩
+  · simp [h, applyKw, dictUpdate, hk, ht]
+  · simp [h]
 
 end FimVerif.C07
